@@ -519,12 +519,8 @@ class Body:
                     continue
                 out += self.trace(t["args"][ai], ap + path[len(rp):], opaque, textra, follow_mut, seen,
                                   via + (short(n),))
-            elif rp[:len(path)] == path:
-                # whole-value query of something the summary only describes piecewise
-                matched = True
-                if ap is None:
-                    continue
-                out += self.trace(t["args"][ai], (), opaque, textra, follow_mut, seen, via + (short(n),))
+            # (a query shorter than every rule prefix - the whole value of something the summary only
+            #  describes piecewise - is answered with the call itself, below)
         if not matched:
             return [Leaf("call", (bb, t), path, via)]
         return out
